@@ -69,3 +69,50 @@ Proof.
     try (rewrite (H 1 (or_intror (or_introl eq_refl))));
     reflexivity.
 Qed.
+
+
+(* ------------------------------------------------------------------ *)
+(** * A cache that passes the memo check is invisible *)
+Section MemoProof.
+  Variables (S C : Type) (seqb : S -> S -> bool) (gen : S -> C).
+  Hypothesis seqb_eq : forall a b, seqb a b = true -> a = b.
+
+  Lemma lookup_map_gen k (seen : list (N * S)) :
+    lookup k (map (fun q => (fst q, gen (snd q))) seen) = option_map gen (lookup k seen).
+  Proof.
+    induction seen as [|[k2 sh2] t IH]; [reflexivity|]. cbn [map lookup fst snd].
+    destruct (N.eqb k k2); [reflexivity | exact IH].
+  Qed.
+
+  Lemma memo_run : forall l seen, memo_ok S seqb l seen = true ->
+    cached_run S C gen l (map (fun q => (fst q, gen (snd q))) seen) = map (fun q => gen (snd q)) l.
+  Proof.
+    induction l as [|[k sh] t IH]; intros seen H; [reflexivity|].
+    cbn [memo_ok cached_run map snd] in *. rewrite lookup_map_gen.
+    destruct (lookup k seen) as [sh0|]; cbn [option_map].
+    - apply andb_prop in H as [H1 H2]. apply seqb_eq in H1. subst sh0. f_equal. apply IH, H2.
+    - f_equal. apply (IH ((k, sh) :: seen) H).
+  Qed.
+End MemoProof.
+
+Lemma list_nat_eqb_eq : forall a b, list_nat_eqb a b = true -> a = b.
+Proof.
+  induction a as [|x a IH]; intros [|y b] H; try discriminate; [reflexivity|].
+  simpl in H. apply andb_prop in H as [H1 H2]. apply Nat.eqb_eq in H1. subst. f_equal. apply IH, H2.
+Qed.
+
+Lemma shape_eqb_eq a b : shape_eqb a b = true -> a = b.
+Proof.
+  destruct a as [[[o1 i1] r1] c1]. destruct b as [[[o2 i2] r2] c2]. unfold shape_eqb. intros H.
+  apply andb_prop in H as [H H4]. apply andb_prop in H as [H H3]. apply andb_prop in H as [H1 H2].
+  apply Z.eqb_eq in H1. apply list_nat_eqb_eq in H2. apply Nat.eqb_eq in H3. apply Z.eqb_eq in H4. subst. reflexivity.
+Qed.
+
+(* For every circuit generator (any function of the shape) and every list of
+   (cache key, shape) pairs that passes the executable memo check: the
+   circuits the cached streamer uses are, step by step, the circuits the
+   generator produces without a cache. *)
+Theorem cache_is_memo (C : Type) (gen : shape -> C) (l : list (N * shape)) :
+  memo_ok shape shape_eqb l [] = true ->
+  cached_run shape C gen l [] = map (fun q => gen (snd q)) l.
+Proof. intros H. exact (memo_run shape C shape_eqb gen shape_eqb_eq l [] H). Qed.
